@@ -1159,6 +1159,12 @@ func (f *Frame) mapSizeFacts(st *State, mt types.Type, m Term, key *Term) {
 	} else {
 		w := vc.fresh("witness", d.Sort.K)
 		vc.fact(Imp(st.reach, Imp(Ge(sz, One), Select(d, w))))
+		w1, w2 := vc.fresh("witness", d.Sort.K), vc.fresh("witness", d.Sort.K)
+		vc.fact(Imp(st.reach, Imp(Ge(sz, IntT(2)), And(Select(d, w1), Select(d, w2), Ne(w1, w2)))))
+		// size and domain agree (memory-model truths): a key means size >= 1, two distinct keys size >= 2
+		kq, kq2 := Term{"k!q", d.Sort.K}, Term{"k!q2", d.Sort.K}
+		vc.fact(Imp(st.reach, Forall([]Term{kq}, Imp(Select(d, kq), Ge(sz, One)), []Term{Select(d, kq)})))
+		vc.fact(Imp(st.reach, Forall([]Term{kq, kq2}, Imp(And(Select(d, kq), Select(d, kq2), Ne(kq, kq2)), Ge(sz, IntT(2))), []Term{Select(d, kq), Select(d, kq2)})))
 	}
 }
 
